@@ -38,13 +38,21 @@ class GR:
     def named_args(self):
         r = self.r
         nn = self.cnt("named", r.choice([0, 0, 1, 1, 2]))
-        names = r.sample(["x", "y", "n", "type", "minimumFractionDigits", "opt"] + (["o%d" % i for i in range(40)] if nn > 6 else []), nn)
+        names = r.sample(["x", "y", "n", "type", "minimumFractionDigits", "opt", "currency", "style", "currencyDisplay"]
+                         + (["o%d" % i for i in range(40)] if nn > 6 else []), nn)
         out = []
         for nm in names:
             if nm == "type":
                 out.append('type: "%s"' % r.choice(["ordinal", "cardinal", "zzz"]))
             elif nm == "minimumFractionDigits":
                 out.append("minimumFractionDigits: %s" % r.choice(["0", "1", "2", "3", "19", "25", "101"]))
+            elif nm == "currency":
+                # any text is accepted as a currency code (also short, long, non-ASCII)
+                out.append('currency: "%s"' % r.choice(["EUR", "usd", "руб", "EU€", "A€", "zł", "", "元人民币", "x"]))
+            elif nm == "style":
+                out.append('style: "%s"' % r.choice(["currency", "percent", "decimal", "Währung"]))
+            elif nm == "currencyDisplay":
+                out.append('currencyDisplay: "%s"' % r.choice(["code", "name", "symbol", "ñ"]))
             elif r.random() < 0.5:
                 out.append('%s: "%s"' % (nm, r.choice(STRS)))
             else:
